@@ -204,3 +204,18 @@ Example C01_example_drained :
   g_got ex_drained = [Some [1; 2; 3; 4; 5]; Some [161; 161; 161; 161]].
 Proof. exact ex_drained_ok. Qed.
 Print Assumptions C01_example_drained.
+
+(* non-vacuity of C01_read_returns_next_chunk: a reachable state (Inv) in which the reader's next micro-step is the
+   read_pt store of a blocking qb_rb_chunk_read that returns 5 bytes *)
+Example C01_example_read_return :
+  Inv ex2_before /\ is_read (rcur (g_r ex2_before)) = true /\
+  exists s' lab, step TR ex2_before = Some (s', (lab, Some (5, [1; 2; 3; 4; 5]))).
+Proof. exact ex2_read_return. Qed.
+Print Assumptions C01_example_read_return.
+
+(* non-vacuity of C01_no_lost_wakeup: peek-free reader program, both threads idle, one unread chunk, one token *)
+Example C01_example_tokens :
+  Forall (fun c => is_peek c = false) [RRead 64 true] /\ quiescent ex2_after = true /\ hsem (g_sh ex2_after) = Some 1 /\
+  length (g_pub ex2_after) = 2%nat /\ length (g_got ex2_after) = 1%nat.
+Proof. exact ex2_tokens. Qed.
+Print Assumptions C01_example_tokens.
